@@ -122,20 +122,23 @@ Proof. intros H d c e m Hin. exfalso; eapply H; eauto. Qed.
 
 Lemma exit_sendto_facts cid e len tnow :
   let r := exit_sendto cid e len tnow in
-  (la (e_ro (fst r)) = la (e_ro e) \/ la (e_ro (fst r)) = tnow) /\ no_cells (snd r).
+  e_peer (fst r) = e_peer e
+  /\ (la (e_ro (fst r)) = la (e_ro e) \/ la (e_ro (fst r)) = tnow) /\ no_cells (snd r).
 Proof.
-  unfold exit_sendto. destruct (e_open e); simpl; (split; [auto|]); intros d c e0 m H; simpl in H; intuition discriminate.
+  unfold exit_sendto. destruct (e_open e); simpl; (split; [reflexivity|]); (split; [auto|]);
+    intros d c e0 m H; simpl in H; intuition discriminate.
 Qed.
 
 Lemma drain_facts cid q : forall e tnow,
   let r := drain cid e q tnow in
-  (la (e_ro (fst r)) = la (e_ro e) \/ la (e_ro (fst r)) = tnow) /\ no_cells (snd r).
+  e_peer (fst r) = e_peer e
+  /\ (la (e_ro (fst r)) = la (e_ro e) \/ la (e_ro (fst r)) = tnow) /\ no_cells (snd r).
 Proof.
-  induction q as [|len tl IH]; intros e tnow; simpl; [split; [auto | intros d c e0 m []]|].
+  induction q as [|len tl IH]; intros e tnow; simpl; [split; [reflexivity|]; split; [auto | intros d c e0 m []]|].
   pose proof (exit_sendto_facts cid e len tnow) as H1.
   destruct (exit_sendto cid e len tnow) as [e1 o1]. simpl in H1.
   pose proof (IH e1 tnow) as H2. destruct (drain cid e1 tl tnow) as [e2 o2]. simpl in H2. simpl.
-  destruct H1 as [L1 N1], H2 as [L2 N2]. split.
+  destruct H1 as [P1 [L1 N1]], H2 as [P2 [L2 N2]]. split; [congruence|]. split.
   - destruct L2 as [L2|L2]; [rewrite L2; exact L1 | right; exact L2].
   - intros d c e0 m H. apply in_app_or in H. destruct H; [eapply N1 | eapply N2]; eauto.
 Qed.
@@ -156,15 +159,16 @@ Proof.
     destruct (negb (e_enabled e) && negb (src =? e_peer e)); [split; [apply frame_refl | exact N0]|].
     set (e1 := mkExit (e_ro e) (e_peer e) true (e_open e) (e_queue e)).
     assert (X : exists e2 o, (if c then exit_sendto cid e1 len (now s) else (e1, [])) = (e2, o)
+                             /\ e_peer e2 = e_peer e
                              /\ (la (e_ro e2) = la (e_ro e) \/ la (e_ro e2) = now s) /\ no_cells o).
     { destruct c.
       - pose proof (exit_sendto_facts cid e1 len (now s)) as H.
         destruct (exit_sendto cid e1 len (now s)) as [e2 o]. simpl in H. exists e2, o. split; [reflexivity | exact H].
-      - exists e1, []. split; [reflexivity|]. split; [left; reflexivity | exact N0]. }
-    destruct X as (e2 & o & E & L & N). rewrite E.
+      - exists e1, []. split; [reflexivity|]. split; [reflexivity|]. split; [left; reflexivity | exact N0]. }
+    destruct X as (e2 & o & E & Pe & L & N). rewrite E.
     set (s1 := set_exits (aset cid e2 (exits s)) s).
     assert (F1 : frame touch s s1).
-    { apply frame_set_exit. intro Hi. exists e. split; [exact Ee|].
+    { apply frame_set_exit. intro Hi. exists e. split; [exact Ee|]. split; [exact Pe|].
       destruct L as [L|L]; [left; exact L | right; split; [apply Ht; exact Hi | exact L]]. }
     destruct (negb (e_enabled e)); simpl; (split; [|exact N]); [|exact F1].
     eapply frame_trans; [exact F1|]. apply frame_defer; [exact Logic.I|].
@@ -188,16 +192,34 @@ Definition only_pong (s : node) (src cid : Z) (m : cellmsg) (o : list out) : Pro
 Lemma no_I_only_pong s src cid m o : no_I_cells o -> only_pong s src cid m o.
 Proof. intros H d c e mm Hin Hi. rewrite (H _ _ _ _ Hin) in Hi. discriminate. Qed.
 
-Lemma handle_frame (touch : Z -> Prop) s src cid m ls :
-  closedI s -> handshake_free cid m -> (I cid = true -> touch cid) ->
+(* what the handler needs to know about the node's bookkeeping, stated locally: the create-request cache the
+   message hits (if any) does not name I, and a retry cache under the cell's id means the id is not in I *)
+Definition handle_local (s : node) (cid : Z) (m : cellmsg) : Prop :=
+  match m with
+  | MCreated ident _ _ =>
+      (forall cc, aget ident (creates s) = Some cc -> I (cc_from cc) = false /\ I (cc_to cc) = false)
+      /\ (forall rt, aget cid (retries s) = Some rt -> I cid = false)
+  | MExtended _ _ _ => forall rt, aget cid (retries s) = Some rt -> I cid = false
+  | _ => True
+  end.
+
+Lemma closed_handle_local s cid m : closedI s -> handle_local s cid m.
+Proof.
+  intros K. destruct m; simpl; auto.
+  - split; [intros cc H; exact (k_creates _ K _ _ H) | intros rt H; exact (k_retries _ K _ _ H)].
+  - intros rt H; exact (k_retries _ K _ _ H).
+Qed.
+
+Lemma handle_frame_l (touch : Z -> Prop) s src cid m ls :
+  handle_local s cid m -> handshake_free cid m -> (I cid = true -> touch cid) ->
   frame touch s (fst (fst (handle st s src cid m ls)))
   /\ only_pong s src cid m (snd (fst (handle st s src cid m ls))).
 Proof.
   intros K Hm Ht.
   assert (R0 : frame touch s s /\ only_pong s src cid m []) by (split; [apply frame_refl | intros d c e mm []]).
-  assert (Ours : forall v p, (exists rt, aget cid (retries s) = Some rt) ->
+  assert (Ours : forall v p, I cid = false ->
             frame touch s (fst (fst (ours st s cid v p ls))) /\ only_pong s src cid m (snd (fst (ours st s cid v p ls)))).
-  { intros v p (rt & Hr). pose proof (k_retries _ K _ _ Hr) as Hc.
+  { intros v p Hc.
     destruct (ours_frame touch s cid v p ls Hc) as [F O]. split; [exact F | apply no_I_only_pong; exact O]. }
   destruct m as [ident|ident v p|ident|ident v p|a b c len| | |mid]; simpl; try exact R0.
   - (* create *)
@@ -205,9 +227,10 @@ Proof.
     simpl. destruct (I cid) eqn:Hi; [|reflexivity]. destruct (Hm Hi) as [H _]. simpl in H. congruence.
   - (* created *)
     destruct (aget ident (creates s)) as [cc|] eqn:Ecc.
-    + destruct (k_creates _ K _ _ Ecc) as [Hf Hto].
+    + destruct (proj1 K _ Ecc) as [Hf Hto].
       set (s1 := set_creates (adel ident (creates s)) s).
       assert (F1 : frame touch s s1) by apply frame_del_create.
+      destruct (ahas (cc_from cc) (relays s)); [split; [exact F1 | intros d c e mm []]|].
       destruct (aget (cc_from cc) (exits s)) as [e|]; [|split; [exact F1 | intros d c e mm []]].
       split.
       * eapply frame_trans; [|apply send_cell_frame].
@@ -223,13 +246,13 @@ Proof.
         apply frame_trans with (b := sa); [exact Fa | exact Fb].
       * apply no_I_only_pong. apply send_cell_no_I. exact Hf.
     + destruct (aget cid (retries s)) as [rt|] eqn:Er; [|exact R0].
-      destruct (rt_ident rt =? ident); [|exact R0]. apply Ours. eauto.
+      destruct (rt_ident rt =? ident); [|exact R0]. apply Ours. exact (proj2 K _ Er).
   - (* extend *)
     split; [|intros d c e mm []]. apply frame_defer; [|intros x H; discriminate].
     simpl. destruct (I cid) eqn:Hi; [|reflexivity]. destruct (Hm Hi) as [_ H]. simpl in H. congruence.
   - (* extended *)
     destruct (aget cid (retries s)) as [rt|] eqn:Er; [|exact R0].
-    destruct (rt_ident rt =? ident); [|exact R0]. apply Ours. eauto.
+    destruct (rt_ident rt =? ident); [|exact R0]. apply Ours. exact (K _ Er).
   - (* ping *)
     rewrite holds_id_comm. destruct (holds_id s cid) eqn:Hh; [|exact R0].
     set (s1 := match aget cid (exits s) with
@@ -237,10 +260,16 @@ Proof.
                | None => s end).
     assert (F1 : frame touch s s1).
     { unfold s1. destruct (aget cid (exits s)) as [e|] eqn:Ee; [|apply frame_refl].
-      apply frame_set_exit. intro Hi. exists e. split; [exact Ee|]. right. split; [apply Ht; exact Hi | reflexivity]. }
+      apply frame_set_exit. intro Hi. exists e. split; [exact Ee|]. split; [reflexivity|]. right. split; [apply Ht; exact Hi | reflexivity]. }
     split; [eapply frame_trans; [exact F1 | apply send_cell_frame]|].
     destruct (send_cell_out s1 src cid MSG_PONG ls) as (early & E). rewrite E.
     intros d c e mm [H|[]] Hi. inversion H; subst. auto.
 Qed.
+
+Lemma handle_frame (touch : Z -> Prop) s src cid m ls :
+  closedI s -> handshake_free cid m -> (I cid = true -> touch cid) ->
+  frame touch s (fst (fst (handle st s src cid m ls)))
+  /\ only_pong s src cid m (snd (fst (handle st s src cid m ls))).
+Proof. intros K. apply handle_frame_l. apply closed_handle_local. exact K. Qed.
 
 End NodeFrames.
